@@ -8,7 +8,7 @@ from . import _w5ts as W
 
 ID = 'C12'
 TITLE = 'df_fillna/nona fill or drop exactly the missing cells, arrays and pandas alike'
-LEAN_FILES = ['Basic', 'TSBasic', 'Fill', 'FillDriver', 'FillLemmas', 'FillIndep', 'FillRows', 'C12']
+LEAN_FILES = ['Basic', 'TSBasic', 'Fill', 'FillDriver', 'FillAlias', 'FillLemmas', 'FillIndep', 'FillRows', 'FillEdge', 'FillAliasLemmas', 'C12']
 RULE = ('distinct protocol lines (object, method list, limit) on which the implementation returned a value and the input '
         'holds at least one NaN and one non-NaN cell')
 TRUSTED = ['correspondence harness (pv.engine, pv.proto, pv.props._w5ts) and generators of pv.props.c12',
